@@ -101,6 +101,7 @@ def run(ctx):
     quick = ctx.tier == "quick"
     rng = random.Random(ctx.seed)
     coll = Collector()
+    ctx.flush_hooks.append(lambda: coll.report(ctx))
     if quick:
         confs = [
             dict(name="ties", reals=["a", "b", "c"], cplx=[], V=[1, 2], depth=4, walk=2500),
